@@ -8,3 +8,4 @@ func (x *runner) runPatchC11() {}
 func (x *runner) runPatchC07() {}
 func (x *runner) runBatchC07() {}
 func (x *runner) runQueryC09() {}
+func (x *runner) runEnvelopes() {}
